@@ -14,10 +14,20 @@ ALLOWED_D = [0, 1, 2, 3, 4, 5, 6, 8]
 SEPS = {"path47": "/", "path46": ".", "path233": "é", "path128512": "😀"}
 
 
-def load_corpus():
-    """(re)generate the Rust corpus and return its description"""
-    subprocess.run([sys.executable, os.path.join(HARNESS, "gen", "typegen.py")], check=True)
+def load_corpus(random_spec=""):
+    """(re)generate the Rust corpus and return its description.  `random_spec` = "<n>:<seed>" adds random
+    compositions (thorough tier); call `restore_corpus()` afterwards so that the tracked generated files
+    describe the fixed corpus again."""
+    env = dict(os.environ)
+    env["VERIF_RANDOM_TYPES"] = random_spec
+    subprocess.run([sys.executable, os.path.join(HARNESS, "gen", "typegen.py")], check=True, env=env)
     return json.load(open(os.path.join(HARNESS, "gen", "corpus.json")))["types"]
+
+
+def restore_corpus():
+    env = dict(os.environ)
+    env["VERIF_RANDOM_TYPES"] = ""
+    subprocess.run([sys.executable, os.path.join(HARNESS, "gen", "typegen.py")], check=True, env=env)
 
 
 def tup(s):
